@@ -280,6 +280,27 @@ func jwsMutations() []jwsMut {
 	exp("equal-crit", 0, true)
 	exp("earlier-crit", -time.Second, true)
 	exp("later-notcrit", time.Hour, false)
+	// the same instant (or one second either side) written in another offset than the signing time's; both in one non-UTC offset
+	for _, z := range []struct {
+		n   string
+		off int
+	}{{"plus2h", 2 * 3600}, {"minus9h", -9 * 3600}, {"plus0530", 5*3600 + 1800}} {
+		for _, d := range []struct {
+			n string
+			d time.Duration
+		}{{"equal", 0}, {"earlier-1s", -time.Second}, {"later-1s", time.Second}} {
+			z, d := z, d
+			add("expiry:"+d.n+"-in-offset-"+z.n, func(b *jwsBuild, c *jwsCtx) {
+				setMember(b, "io.cncf.notary.expiry", jsonStr(c.st.Add(d.d).In(time.FixedZone("", z.off)).Format(time.RFC3339)))
+				addCrit(b, "io.cncf.notary.expiry")
+			})
+			add("expiry:"+d.n+"-both-in-offset-"+z.n, func(b *jwsBuild, c *jwsCtx) {
+				setMember(b, timeKey(c.scheme), jsonStr(c.st.In(time.FixedZone("", z.off)).Format(time.RFC3339)))
+				setMember(b, "io.cncf.notary.expiry", jsonStr(c.st.Add(d.d).In(time.FixedZone("", z.off)).Format(time.RFC3339)))
+				addCrit(b, "io.cncf.notary.expiry")
+			})
+		}
+	}
 	add("expiry:zero-notcrit", func(b *jwsBuild, c *jwsCtx) { setMember(b, "io.cncf.notary.expiry", `"0001-01-01T00:00:00Z"`) })
 	add("expiry:zero-crit", func(b *jwsBuild, c *jwsCtx) {
 		setMember(b, "io.cncf.notary.expiry", `"0001-01-01T00:00:00Z"`)
@@ -370,6 +391,32 @@ func jwsMutations() []jwsMut {
 		tw := tw
 		add("ext:fold-twin:"+tw, func(b *jwsBuild, c *jwsCtx) { setMember(b, tw, `"PS256"`) })
 	}
+	// every spelling that folds onto a defined name without being it (ASCII case, U+017F long s for s, U+212A Kelvin sign for
+	// k), carrying a *valid other value* for that header, after the exact member: a decoder that matches names under folding
+	// takes the value from the twin
+	for _, base := range []string{"alg", "cty", "crit", "io.cncf.notary.expiry", "io.cncf.notary.signingTime", "io.cncf.notary.signingScheme", "io.cncf.notary.authenticSigningTime"} {
+		for _, tw := range foldTwins(base) {
+			base, tw := base, tw
+			add("ext:fold-twin-valid:"+tw, func(b *jwsBuild, c *jwsCtx) {
+				var raw string
+				switch base {
+				case "alg":
+					raw = `"ES512"`
+				case "cty":
+					raw = `"other/type"`
+				case "crit":
+					raw = `["io.cncf.notary.signingScheme","io.cncf.notary.expiry","io.cncf.notary.authenticSigningTime"]`
+				case "io.cncf.notary.expiry":
+					raw = jsonStr(c.st.Add(240 * time.Hour).Format(time.RFC3339))
+				case "io.cncf.notary.signingTime", "io.cncf.notary.authenticSigningTime":
+					raw = jsonStr(c.st.Add(-24 * time.Hour).Format(time.RFC3339))
+				case "io.cncf.notary.signingScheme":
+					raw = jsonStr(c.scheme) // the same scheme once more: harmless if taken, ambiguous all the same
+				}
+				b.Members = append(b.Members, jMember{tw, raw})
+			})
+		}
+	}
 	add("ext:fold-twin-time", func(b *jwsBuild, c *jwsCtx) {
 		setMember(b, "io.cncf.notary.signingtime", jsonStr(c.st.Add(-24*time.Hour).Format(time.RFC3339)))
 	})
@@ -389,6 +436,9 @@ func jwsMutations() []jwsMut {
 	pl("bigint", `{"size":12345678901234567890}`)
 	pl("empty-object", "{}")
 	pl("dup-keys", `{"a":1,"a":2}`)
+	for i, pv := range jwtClaimPayloads {
+		pl(fmt.Sprintf("claim-names-%d", i), pv)
+	}
 	// signature
 	add("sig:empty", func(b *jwsBuild, c *jwsCtx) { e := ""; b.SigSeg = &e })
 	add("sig:flip-last-bit", func(b *jwsBuild, c *jwsCtx) {
@@ -914,4 +964,40 @@ func isJwsHeaderKey(k string) bool {
 		}
 	}
 	return false
+}
+
+// foldTwins: spellings of name that strings.EqualFold equates with it and that are not it
+func foldTwins(name string) []string {
+	seen := map[string]bool{name: true}
+	var out []string
+	addT := func(t string) {
+		if !seen[t] && strings.EqualFold(t, name) {
+			seen[t] = true
+			out = append(out, t)
+		}
+	}
+	addT(strings.ToLower(name))
+	addT(strings.ToUpper(name))
+	rs := []rune(name)
+	for i, r := range rs {
+		var alt rune
+		switch r {
+		case 's', 'S':
+			alt = 0x17f
+		case 'k', 'K':
+			alt = 0x212a
+		default:
+			if r >= 'a' && r <= 'z' {
+				alt = r - 32
+			} else if r >= 'A' && r <= 'Z' {
+				alt = r + 32
+			}
+		}
+		if alt != 0 && (r == 's' || r == 'S' || r == 'k' || r == 'K' || i == 0 || i == len(rs)-1) {
+			c := append([]rune{}, rs...)
+			c[i] = alt
+			addT(string(c))
+		}
+	}
+	return out
 }
